@@ -938,14 +938,21 @@ where
     pub fn insert_and_get_node_id(&mut self, key: &[u8]) -> Result<StateId> {
         match &mut self.storage {
             TrieStorage::Patricia { nodes, edge_data, compressed_paths } => {
+                // count a key only when it is new (as Trie::insert does)
+                let existed = Self::contains_patricia_actual(nodes, edge_data, compressed_paths, key);
                 let node_id = Self::insert_patricia_actual(nodes, edge_data, compressed_paths, key)?;
-                self.stats.num_keys += 1;
+                if !existed {
+                    self.stats.num_keys += 1;
+                }
                 Ok(node_id)
             }
             TrieStorage::Louds { louds, is_link, next_link, label_data, core_data, next_trie } => {
                 // Delegate to the LOUDS-specific insert implementation
+                let existed = Self::contains_louds_internal(label_data, key);
                 let node_id = Self::insert_louds(louds, is_link, next_link, label_data, core_data, next_trie, key)?;
-                self.stats.num_keys += 1;
+                if !existed {
+                    self.stats.num_keys += 1;
+                }
                 Ok(node_id)
             }
             _ => {
